@@ -70,6 +70,11 @@ func (dr *DocumentRef) Calculate(cur currency.Code, rr cbc.Key) {
 	if dr == nil || dr.Tax == nil {
 		return
 	}
+	if cur.Def() == nil {
+		// not a currency we know: nothing to calculate with, validation
+		// will say so
+		return
+	}
 	// The bases of a referenced document are given, not derived from lines:
 	// bring them to the precision they will be stored with before anything
 	// is computed from them, or the amounts depend on how a base happened to
